@@ -64,3 +64,20 @@ Fixpoint ns_eqb (l1 l2 : list N) : bool :=
 Definition sort_tags (l : list N) : list N := isort_by N.leb l.
 Definition dir_order_ok (tags : list N) : bool :=
   ns_eqb (sort_tags (rev tags)) tags && ns_eqb (sort_tags (tl tags ++ firstn 1 tags)) tags.
+
+(* ---- batch interpolation of missing glyph instances (fontir/src/glyph.rs batch_interpolate_missing, issue 1873):
+   every missing location is interpolated from the ORIGINAL source set, then all are inserted.  `interp` stands for
+   instantiate_instance (a function of the source set and the location); `incremental` is the order-sensitive variant the
+   code avoids (interpolate from the set as it grows). *)
+Section Batch.
+  Variables (L V : Type) (leqb : L -> L -> bool) (interp : list (L * V) -> L -> V).
+  Fixpoint lookup (m : list (L * V)) (k : L) : option V :=
+    match m with
+    | [] => None
+    | (k', v) :: t => if leqb k' k then Some v else lookup t k
+    end.
+  Definition batch (m : list (L * V)) (locs : list L) : list (L * V) :=
+    fold_left (fun acc l => match lookup m l with Some _ => acc | None => (l, interp m l) :: acc end) locs m.
+  Definition incremental (m : list (L * V)) (locs : list L) : list (L * V) :=
+    fold_left (fun acc l => match lookup acc l with Some _ => acc | None => (l, interp acc l) :: acc end) locs m.
+End Batch.
